@@ -67,7 +67,11 @@ def gen(tier, rng):
     yield Script("cipher-list-merge", kops, {"suite": "config"})
     # the advertised set is the configured set, whatever the order and spelling of the user's list
     yield initgen.cfg_algos_script(rng.fork("cfg"), "cfg-algos", tier == "thorough")
-    # node level: unencrypted sessions only where both ends enabled 'plain'; no common cipher => no connection
+    # "altering the lists in transit makes the handshake fail": every cipher id / speed edit of a genuine ping and pong (each receiver stage), then the genuine
+    # messages complete the handshake; cipher lists of a newer peer (unknown ids), genuinely signed: the known entries decide
+    yield initgen.c01_script(rng.fork("tamper"), [0, 1], [0, 1], tier == "thorough", "tamper-lists")
+    for sc in initgen.signed_parts_scripts(rng.fork("signed"), tier == "thorough"):
+        yield sc
     r = rng.fork("node")
     yield nodegen.plain_script(r, "node-plain-mixed", [True, False, "only"])
     yield nodegen.plain_script(r, "node-plain-pair", ["only", True])
